@@ -6,12 +6,26 @@ Nothing in /repo is touched: gating is done by subclasses created in this proces
 threading.Event / Thread / SimulatedClock subclasses put in place of the runner's own objects) and by a
 sys.settrace line gate on the `queue.insert(` line of Interpreter._queue_event (located by searching the
 source text at run time); fallback when the line gate cannot be installed: a list subclass whose insert()
-is gated."""
+is gated.
+
+Pacing (`interval` > 0): the names through which the module of AsyncRunner reaches the wall clock (the `time`
+module, or time()/monotonic()/perf_counter()/sleep() imported by name) are rebound IN THIS PROCESS to scripted
+ones that act on a virtual wall clock when called on a gated runner thread (and are the real ones anywhere
+else): a case may carry `interval` (strictly positive values included) and `costs` (durations spent, in
+turn, by before_execute / execute_once / after_execute on the runner thread: slow hooks, slow actions), so
+that cycles which overrun the interval are replayed deterministically and without any real waiting.  The
+scripted sleep() refuses what the real one refuses (it hands every non-positive / non-finite / non-numeric
+argument to the real time.sleep).  The wall clock is thread-local to the runner and is not part of the LTS:
+the model trace required of a paced case is the one of the same case with interval 0.  A runner thread that
+ends with an exception is recorded and reported as such (events left unconsumed, after_run not run, thread
+dead although the statechart is not final show up in the failing clauses)."""
 import inspect
 import itertools
 import json
+import math
 import os
 import random
+import re
 import subprocess
 import sys
 import threading
@@ -26,6 +40,7 @@ KNOWN_ID = 'C20-stale-bisect-index'
 CORPUS = '/verif/corpus/C20'
 
 R, C = 'R', 'C'          # thread ids of the schedule (runner, client 0)
+_REAL_TIME = time
 CHARTS = ('plain', 'fin', 'initfinal')
 
 
@@ -63,8 +78,45 @@ class TState:
         self.thread = None
 
 
+class Wall:
+    """virtual wall clock of one runner thread (only that thread touches it)."""
+    READ = 2.0 ** -16        # a reading of the clock is not free
+
+    def __init__(self, interval, costs, real):
+        self.interval = interval
+        self.costs = list(costs or [])
+        self.k = 0
+        self.now = 1000.0
+        self.real = real         # True: no scripted time functions in place, durations are really slept (scaled)
+        self.scale = 1.0
+        self.cycle_start = None
+        self.cycles = 0
+        self.overruns = 0        # cycles (before_execute .. after_execute) longer than the interval
+        self.sleeps = 0
+
+    def spend(self):
+        if not self.costs:
+            return
+        c = self.costs[self.k % len(self.costs)]
+        self.k += 1
+        self.now += c
+        if self.real and c > 0:
+            _REAL_TIME.sleep(c * self.scale)
+
+    def begin_cycle(self):
+        self.cycle_start = self.now
+        self.cycles += 1
+
+    def end_cycle(self):
+        if self.cycle_start is not None and self.interval > 0 and self.now - self.cycle_start >= self.interval:
+            self.overruns += 1
+        self.cycle_start = None
+
+
 class Ctl:
     def __init__(self, stuck_timeout=10.0):
+        self.wall = None
+        self.runner_exception = None
         self.cv = threading.Condition()
         self.th = {R: TState(), C: TState()}
         self.by_ident = {}
@@ -222,6 +274,9 @@ def make_classes():
             ctl.register(R)
             try:
                 super().run()
+            except Exception as e:      # the runner thread ends here, as it would with the default excepthook
+                ctl.runner_exception = repr(e)
+                ctl.log.append(('exc', R, repr(e)))
             finally:
                 with ctl.cv:
                     ctl.th[R].status = 'exiting'
@@ -319,6 +374,8 @@ def make_classes():
         def execute_once(self):
             ctl = self.ctl
             self._last_peek = self._last_pop = 'none'
+            if ctl.me() == R and ctl.wall is not None:
+                ctl.wall.spend()          # a slow action
             r = super().execute_once()
             if ctl.me() == R:
                 if r is None:
@@ -364,8 +421,8 @@ def make_classes():
             return super()._queue_event(event)
 
     class GRunner(AsyncRunner):
-        def __init__(self, ctl, interp, execute_all):
-            super().__init__(interp, interval=0, execute_all=execute_all)
+        def __init__(self, ctl, interp, execute_all, interval=0):
+            super().__init__(interp, interval=interval, execute_all=execute_all)
             self.ctl = ctl
             self._unpaused = GEvent(ctl, 'unp')
             self._stop = GEvent(ctl, 'stop')
@@ -384,6 +441,10 @@ def make_classes():
         def before_execute(self):
             self.ctl.gate('before_execute')
             self.ctl.rlog('before_execute')
+            w = self.ctl.wall
+            if w is not None:
+                w.begin_cycle()
+                w.spend()                 # a slow hook
             super().before_execute()
 
         def after_execute(self, steps):
@@ -391,6 +452,10 @@ def make_classes():
             seen = self.interpreter.steps_seen
             self.ctl.rlog('after_execute', [seen.get(id(s), ('unknown',)) for s in steps])
             super().after_execute(steps)
+            w = self.ctl.wall
+            if w is not None:
+                w.spend()                 # a slow hook
+                w.end_cycle()
 
         def execute(self):
             return super().execute()     # the real execute(); not re-implemented
@@ -398,7 +463,99 @@ def make_classes():
         def __del__(self):               # __del__ -> stop() is not modelled
             pass
 
+    install_scripted_time(AsyncRunner)
     return dict(GEvent=GEvent, GThread=GThread, GClock=GClock, GList=GList, GInterp=GInterp, GRunner=GRunner)
+
+
+# ------------------------------------------------------------------------------------------------
+# scripted wall clock in place of the one the module of AsyncRunner uses (this process only)
+# ------------------------------------------------------------------------------------------------
+_TIME_PATCH = None
+
+
+def _wall():
+    """(ctl, virtual wall clock) of the calling thread when it is a gated runner thread, else (None, None)."""
+    ctl = getattr(threading.current_thread(), 'ctl', None)
+    w = getattr(ctl, 'wall', None)
+    if w is None or w.real:
+        return None, None
+    return ctl, w
+
+
+def _scripted_clock(realf, ns=False):
+    def f():
+        ctl, w = _wall()
+        if w is None:
+            return realf()
+        v = w.now
+        w.now += Wall.READ
+        ctl.log.append(('time', R, realf.__name__, v))
+        return int(v * 10 ** 9) if ns else v
+    f.__name__ = realf.__name__
+    return f
+
+
+def _scripted_sleep(secs):
+    ctl, w = _wall()
+    if w is None:
+        return _REAL_TIME.sleep(secs)
+    try:
+        if secs > 0 and secs != math.inf:
+            _REAL_TIME.sleep(0)
+        else:
+            _REAL_TIME.sleep(secs)      # 0: returns at once; negative, NaN, inf, not a number: raises as the real one
+    except BaseException as e:
+        ctl.log.append(('time', R, 'sleep', secs, 'raised %r' % (e,)))
+        raise
+    ctl.log.append(('time', R, 'sleep', secs, 'returned'))
+    w.sleeps += 1
+    w.now += secs
+
+
+class ScriptedTime:
+    """stands for the `time` module: everything but the clocks and sleep is the real module's."""
+
+    def __init__(self):
+        for n in ('time', 'monotonic', 'perf_counter'):
+            setattr(self, n, _scripted_clock(getattr(_REAL_TIME, n)))
+            setattr(self, n + '_ns', _scripted_clock(getattr(_REAL_TIME, n + '_ns'), ns=True))
+        self.sleep = _scripted_sleep
+
+    def __getattr__(self, name):
+        return getattr(_REAL_TIME, name)
+
+
+def install_scripted_time(runner_class):
+    """Rebind, in the globals of the functions of AsyncRunner (and of its bases), the names bound to the time
+    module or to its clock / sleep functions.  Returns the list of rebound names (empty: nothing found, the
+    paced cases then really sleep, scaled down)."""
+    global _TIME_PATCH
+    if _TIME_PATCH is not None:
+        return _TIME_PATCH
+    fake = ScriptedTime()
+    by_id = {id(_REAL_TIME): fake, id(_REAL_TIME.sleep): fake.sleep}
+    for n in ('time', 'monotonic', 'perf_counter'):
+        by_id[id(getattr(_REAL_TIME, n))] = getattr(fake, n)
+        by_id[id(getattr(_REAL_TIME, n + '_ns'))] = getattr(fake, n + '_ns')
+    globs, names = [], []
+    try:
+        for klass in runner_class.__mro__:
+            for v in list(vars(klass).values()):
+                f = v.fget if isinstance(v, property) else getattr(v, '__func__', v)
+                g = getattr(f, '__globals__', None)
+                if isinstance(g, dict) and str(g.get('__name__', '')).startswith('sismic') and \
+                        all(g is not x for x in globs):
+                    globs.append(g)
+        for g in globs:
+            for name, val in list(g.items()):
+                if id(val) in by_id:
+                    g[name] = by_id[id(val)]
+                    names.append('%s.%s' % (g.get('__name__'), name))
+    except Exception as e:   # fail-soft: the paced cases fall back to real (scaled) sleeping
+        names = []
+        log('C20: scripted time not installed: %r' % (e,))
+    _TIME_PATCH = dict(names=names)
+    return _TIME_PATCH
 
 
 def uid_of(event):
@@ -435,7 +592,6 @@ def find_insert_line():
         src, first = inspect.getsourcelines(fn)
         hits = [k for k, l in enumerate(src) if '.insert(' in l and not l.strip().startswith('#')]
         bis = [k for k, l in enumerate(src) if 'bisect' in l]
-        import re
         m = re.search(r'\.insert\(\s*(\w+)\s*,\s*\(\s*(\w+)\s*,\s*(\w+)\s*\)\s*\)', src[hits[0]]) \
             if len(hits) == 1 else None
         if len(hits) != 1 or not bis or bis[0] >= hits[0]:
@@ -487,6 +643,12 @@ def run_real(case, use_linegate=True, max_completion=400):
     cl = classes()
     from sismic.model import Event
     ctl = Ctl()
+    interval = case.get('interval') or 0
+    real_time = not _TIME_PATCH['names']
+    ctl.wall = Wall(interval, case.get('costs'), real_time)
+    if real_time and interval > 0:       # no scripted clock in place: really sleep, scaled down
+        ctl.wall.scale = min(interval, 0.002) / interval
+        interval = min(interval, 0.002)
     interp = cl['GInterp'](ctl, make_chart(case['chart']))
     gate_kind = 'linegate'
     tracer = make_tracer(ctl) if use_linegate else None
@@ -495,7 +657,7 @@ def run_real(case, use_linegate=True, max_completion=400):
         q = cl['GList'](interp._external_queue)
         q.ctl = ctl
         interp._external_queue = q
-    runner = cl['GRunner'](ctl, interp, case['all'])
+    runner = cl['GRunner'](ctl, interp, case['all'], interval)
     ctl.th[R].thread = runner._thread
     err = []
 
@@ -591,8 +753,12 @@ def run_real(case, use_linegate=True, max_completion=400):
         ct.join(2.0)
         if threading.Thread.is_alive(runner._thread):
             threading.Thread.join(runner._thread, 2.0)
+    w = ctl.wall
     return dict(sched=sched, log=list(ctl.log), final=final, complete=complete, gate=gate_kind,
-                error=error or (err[0] if err else None), blocked_checks=ctl.blocked_checks)
+                error=error or (err[0] if err else None), blocked_checks=ctl.blocked_checks,
+                runner_exception=ctl.runner_exception,
+                pace=dict(interval=w.interval, cycles=w.cycles, overruns=w.overruns, sleeps=w.sleeps,
+                          scripted=not w.real))
 
 
 # ------------------------------------------------------------------------------------------------
@@ -635,6 +801,8 @@ def translate(rawlog, script):
             if ent[0] == 'skip':
                 items.append('TSkip %s' % c_tid(ent[1]))
                 continue
+            if ent[0] in ('time', 'exc'):
+                continue     # the runner's own wall clock (thread-local) / the record of its death: no LTS action
             t, k = ent[0], ent[1]
             if t == C:
                 ck = cur[0] if cur else None
@@ -868,12 +1036,57 @@ def random_case(rng):
     return dict(chart=chart, all=ea, script=script, sched=sched[:m], origin='random')
 
 
+# pacing: (interval, durations spent in turn by before_execute / execute_once / after_execute on the runner thread)
+PACES = [
+    (0.1, []),                         # default interval, cycles of (almost) no duration
+    (0.1, [0.25]),                     # every hook / step slower than the interval
+    (0.1, [0, 0, 0.3]),                # one slow call in three
+    (0.05, [0.01, 0.02]),              # busy, most cycles within the interval
+    (1, [0.5, 0.5, 0.5]),              # no single call overruns, the cycle does
+    (0.001, [0.002, 0]),
+    (2.5, [0, 0, 0, 0, 0, 0, 7]),      # a rare very slow call
+    (0.1, [0.05, 0, 0.05]),            # cycles of just about the interval
+]
+PACED_SCRIPTS = [
+    ('plain', False, [('queue', E(1)), ('queue', E(2)), ('queue', E(3)), ('start',), ('stop',)]),
+    ('plain', True, [('queue', E(1)), ('queue', E(2)), ('start',), ('queue', E(3)), ('stop',)]),
+    ('fin', False, [('start',), ('queue', E(1)), ('queue', E(2, fin=True)), ('stop',)]),
+    ('plain', False, [('queue', E(1)), ('start',), ('pause',), ('queue', E(2)), ('unpause',), ('stop',)]),
+    ('fin', True, [('queue', E(1)), ('queue', E(2, fin=True)), ('queue', E(3)), ('start',), ('stop',)]),
+    ('initfinal', False, [('start',), ('queue', E(1)), ('stop',)]),
+    ('plain', False, [('queue', E(1)), ('queue', E(2, delay=5)), ('start',), ('clock', 5), ('queue', E(3)), ('stop',)]),
+]
+
+
+def paced_cases():
+    """every script above under every pacing, on four schedules (each followed by the fair completion): the client
+    up to (not including) its last call, stop(), then the runner for 12 / 45 actions; the client up to the return
+    of start(), then three / seven runner actions for each client action."""
+    out = []
+    for chart, ea, script in PACED_SCRIPTS:
+        nc = n_client_actions(script[:-1])
+        ns = n_client_actions(script[:script.index(('start',)) + 1])
+        for interval, costs in PACES:
+            for sched in ([C] * nc + [R] * 12, [C] * nc + [R] * 45, [C] * ns + ([R] * 3 + [C]) * 20,
+                          [C] * ns + ([R] * 7 + [C]) * 12):
+                out.append(dict(chart=chart, all=ea, script=list(script), sched=list(sched), interval=interval,
+                                costs=list(costs), origin='paced'))
+    return out
+
+
+def random_pace(rng):
+    interval = rng.choice([0.1, 0.1, 0.05, 0.01, 0.001, 1, 2.5])
+    costs = [rng.choice([0, 0, 0, interval / 4, interval / 2, interval, 2 * interval, 10 * interval])
+             for _ in range(rng.randint(0, 5))]
+    return interval, costs
+
+
 def _worker(case):
     try:
         return run_real(case)
     except Exception as e:      # harness failure: reported, never silently dropped
         return dict(sched=list(case['sched']), log=[], final=None, complete=False, gate='?',
-                    error='harness exception %r' % (e,), blocked_checks=0)
+                    error='harness exception %r' % (e,), blocked_checks=0, runner_exception=None, pace=None)
 
 
 def run_all(cases, nproc):
@@ -888,14 +1101,18 @@ def run_all(cases, nproc):
 # ------------------------------------------------------------------------------------------------
 # ungated stress run (thorough tier): history checked by Pb_C20 only
 # ------------------------------------------------------------------------------------------------
-def stress_run(seed, chart, ea, n_events, wait_final):
+def stress_run(seed, chart, ea, n_events, wait_final, pace=(0, [])):
     cl = classes()
     from sismic.model import Event
     rng = random.Random(seed)
     ctl = Ctl()
     ctl.free = True
+    interval, costs = pace
+    if not _TIME_PATCH['names']:
+        interval, costs = min(interval, 0.0005), []      # no scripted clock in place: real, short sleeps
+    ctl.wall = Wall(interval, costs, not _TIME_PATCH['names'])
     interp = cl['GInterp'](ctl, make_chart(chart))
-    runner = cl['GRunner'](ctl, interp, ea)
+    runner = cl['GRunner'](ctl, interp, ea, interval)
     script = []
     lg = ctl.log
 
@@ -938,8 +1155,11 @@ def stress_run(seed, chart, ea, n_events, wait_final):
     items, bad = translate(list(lg), script)
     if hung:
         bad.append('runner thread still alive after stop()')
+    if ctl.runner_exception:
+        bad.append('the runner thread ended with an exception: ' + ctl.runner_exception)
     return dict(chart=chart, all=ea, drained=drained and chart != 'fin', items=items, bad=bad,
-                n_events=n_events, script_len=len(script))
+                n_events=n_events, script_len=len(script), interval=interval, costs=costs,
+                overruns=ctl.wall.overruns)
 
 
 # ------------------------------------------------------------------------------------------------
@@ -1001,7 +1221,7 @@ def evaluate(cases, results, d, tag='cases', shard=150):
 
 def jsonable_case(c):
     return dict(chart=c['chart'], all=c['all'], script=[list(o) for o in c['script']], sched=c['sched'],
-                origin=c.get('origin'))
+                interval=c.get('interval') or 0, costs=list(c.get('costs') or []), origin=c.get('origin'))
 
 
 def classify(cases, results, masks, bads, v, known_ok, stats):
@@ -1012,6 +1232,9 @@ def classify(cases, results, masks, bads, v, known_ok, stats):
         problem = None
         if r.get('error'):
             problem = 'replay failed: ' + str(r['error'])
+        elif r.get('runner_exception'):
+            problem = ('the runner thread ended with an exception: %s (whatever it had left to do is not done: '
+                       'see the failing clauses and the final state)' % r['runner_exception'])
         elif k in bads:
             problem = 'the implementation performed accesses the model has no action for: %r' % (bads[k][:3],)
         elif not r['complete']:
@@ -1033,6 +1256,7 @@ def classify(cases, results, masks, bads, v, known_ok, stats):
                          clauses_failing_with_atomic_insert=clauses(pa), mask=m,
                          implementation_history=[repr(e) for e in r['log']],
                          implementation_final_state=r['final'], gate=r.get('gate'),
+                         runner_exception=r.get('runner_exception'), pacing=r.get('pace'),
                          known_finding_listed=known_ok,
                          how_to_replay='cd /verif && ./check C20 --replay <this file>'),
                     tag=str(k), no_input=(pi == 0))
@@ -1074,6 +1298,13 @@ def main(tier, seed):
     n_corpus = len(cases)
     cases += enum_cases(320 if quick else 6000, rng)
     cases += [random_case(rng) for _ in range(200 if quick else 3000)]
+    # pacing: own generator (the schedules drawn above do not depend on it); about half of the enumerated and of the
+    # random cases run with a strictly positive interval and scripted durations, the others as before (interval 0)
+    prng = random.Random(seed * 7919 + 21)
+    for c in cases[n_corpus:]:
+        if prng.random() < 0.5:
+            c['interval'], c['costs'] = random_pace(prng)
+    cases += paced_cases()
     lg = find_insert_line()
     code, line = lg[0], lg[1]
     gate_note = ('sys.settrace line gate on default.py:%d (`queue.insert(` of _queue_event)' % line) if code \
@@ -1111,7 +1342,8 @@ def main(tier, seed):
         srng = random.Random(seed + 2020)
         for i in range(24):
             chart = ['plain', 'plain', 'fin'][i % 3]
-            hs.append(stress_run(srng.randint(0, 10 ** 9), chart, i % 2 == 1, 150 + 50 * (i % 4), i % 6 == 2))
+            hs.append(stress_run(srng.randint(0, 10 ** 9), chart, i % 2 == 1, 150 + 50 * (i % 4), i % 6 == 2,
+                                 pace=PACES[(i // 2) % len(PACES)] if i % 2 == 0 or i % 8 == 1 else (0, [])))
         fn = '%s/stress_0.v' % d
         with open(fn, 'w') as f:
             f.write(CASE_HEADER)
@@ -1123,7 +1355,8 @@ def main(tier, seed):
         hm = dict(parse_pairs(out)) if rc == 0 else {}
         for i, h in enumerate(hs):
             st = dict(chart=h['chart'], execute_all=h['all'], events=h['n_events'], items=len(h['items']),
-                      drained=h['drained'], mask=hm.get(i, 0), untranslatable=len(h['bad']))
+                      drained=h['drained'], mask=hm.get(i, 0), untranslatable=len(h['bad']),
+                      interval=h['interval'], costs=h['costs'], cycles_overrunning_the_interval=h['overruns'])
             stress.append(st)
             if rc != 0 or hm.get(i, 0) or h['bad']:
                 n_viol += 1
@@ -1183,7 +1416,20 @@ def main(tier, seed):
         samples=[dict(case=jsonable_case(cases_all[i]), complete_schedule=results_all[i]['sched'],
                       history=[repr(e) for e in results_all[i]['log']][:80]) for i in sample_ix],
         generators=dict(corpus=n_corpus, enumerated=sum(1 for c in cases if c.get('origin') == 'enum'),
-                        random=sum(1 for c in cases if c.get('origin') == 'random'), fallback_gate=len(extra)),
+                        random=sum(1 for c in cases if c.get('origin') == 'random'),
+                        paced=sum(1 for c in cases if c.get('origin') == 'paced'), fallback_gate=len(extra)),
+        pacing=dict(
+            wall_clock=('scripted (virtual) clock and sleep bound in place of: ' + ', '.join(_TIME_PATCH['names']))
+            if _TIME_PATCH['names'] else 'NO name bound to the time module or its functions found in the module of '
+                                         'AsyncRunner: paced cases really sleep (interval scaled to <= 2 ms)',
+            schedules_with_positive_interval=sum(1 for c in cases_all if (c.get('interval') or 0) > 0),
+            schedules_with_a_cycle_longer_than_the_interval=sum(1 for r in results_all
+                                                                if r.get('pace') and r['pace']['overruns']),
+            cycles=sum(r['pace']['cycles'] for r in results_all if r.get('pace')),
+            cycles_longer_than_the_interval=sum(r['pace']['overruns'] for r in results_all if r.get('pace')),
+            sleeps_returned=sum(r['pace']['sleeps'] for r in results_all if r.get('pace')),
+            execute_all_with_positive_interval=sum(1 for c in cases_all if c['all'] and (c.get('interval') or 0) > 0),
+            runner_threads_ended_by_an_exception=sum(1 for r in results_all if r.get('runner_exception'))),
         gate=gate_note, op_mix=opmix, schedules_with_a_thread_blocked_in_wait_or_join=blocked,
         known_finding_listed=known_ok, known_finding_cases=stats['known_finding_cases'],
         corpus=corpus_status, stress_runs=stress, mismatching_cases=len(masks),
@@ -1196,8 +1442,12 @@ def main(tier, seed):
     write_evidence(PROP, tier, seed, t0, cov,
                    ['atomicity grain (one atomic action per Python-level access to shared state) is an assumption '
                     'about CPython, not a theorem',
-                    'real preemption, time.sleep/time.time, threading.Event internals beyond set/clear/wait-with-'
-                    'wakeup, and AsyncRunner.__del__ are not modelled',
+                    'real preemption, threading.Event internals beyond set/clear/wait-with-wakeup, and '
+                    'AsyncRunner.__del__ are not modelled; the wall clock of the runner thread (time.time / '
+                    'time.sleep as reached from the module of AsyncRunner) is replaced by a scripted virtual one '
+                    '(strictly positive intervals, cycles longer than the interval) and is not part of the LTS: '
+                    'the model trace required is independent of interval and durations; how long the runner '
+                    'sleeps is recorded, not judged',
                     'interpreter abstracted to external queue, _time, clock, _initialized, final; chart family '
                     '{plain, fin, initfinal}; one client thread',
                     'C20_events proved for zero-delay events with one client; delayed events: C20_events_refuted '
@@ -1220,6 +1470,7 @@ def replay(path):
         print('  impl:', e)
     print('  complete schedule:', ''.join(r['sched']))
     print('  final state:', r['final'], 'error:', r['error'])
+    print('  runner exception:', r.get('runner_exception'), ' pacing:', r.get('pace'))
     m = masks.get(0, 0)
     print('  mask=%d  correspondence=%d  Pb(impl)=%s  Pb(model, atomic insert)=%s' %
           (m, m & 3, clauses((m >> 4) & 0xFF), clauses((m >> 12) & 0xFF)))
